@@ -5,6 +5,7 @@ import (
 	"go/types"
 	"sort"
 	"strings"
+	"time"
 
 	"golang.org/x/tools/go/ssa"
 
@@ -135,7 +136,12 @@ type Machine struct {
 	candModel    map[string]uint64
 	candTerm     *sym.Term
 	CacheHits    int
+	CrossKind    string
+	CrossStats   *smt.Stats
+	CrossN       int
+	knownW       map[string]*Violation
 	onPending    func([]Dec)
+	inIntrinsic  *ssa.Function
 	lastRun      *Run
 	mapOrderRev  bool
 	idN          int
@@ -157,6 +163,10 @@ type Config struct {
 }
 
 func (m *Machine) unsupported(format string, a ...interface{}) {
+	if m.inIntrinsic != nil {
+		m.inIntrinsic = nil
+		panic(intrinsicFallback{})
+	}
 	panic(pathAbort{"unsupported", fmt.Sprintf(format, a...)})
 }
 
@@ -488,6 +498,9 @@ func (m *Machine) Assert(v Value, id string, msg string) {
 	mod, r := m.modelNow(neg)
 	switch r {
 	case smt.Unsat:
+		if m.CrossKind != "" {
+			m.crossCheck(neg, id)
+		}
 		m.asserts[id]++
 		// the assertion holds on this path; keep it as a fact
 		if t, ok := v.(*sym.Term); ok {
@@ -505,6 +518,52 @@ func (m *Machine) Assert(v Value, id string, msg string) {
 	m.violation = &Violation{AssertID: id, Msg: msg, Model: mod, Inputs: m.inputsFromModel(mod),
 		Prefix: DecString(m.decisions), Trace: append([]string(nil), m.trace...)}
 	panic(pathAbort{"violation", id})
+}
+
+// crossCheck re-decides an unsat assertion query on a second solver.
+func (m *Machine) crossCheck(neg *sym.Term, id string) {
+	s2, err := smt.Start(m.CrossKind, 120*time.Second, m.CrossStats)
+	if err != nil {
+		m.inconclusive = append(m.inconclusive, "cross solver: "+err.Error())
+		return
+	}
+	defer s2.Close()
+	for _, t := range m.pc {
+		s2.Assert(t)
+	}
+	s2.Assert(neg)
+	r := s2.Check()
+	m.CrossN++
+	if r != smt.Unsat {
+		m.inconclusive = append(m.inconclusive, fmt.Sprintf("assert %s: primary solver says unsat, %s says %v", id, m.CrossKind, r))
+	}
+}
+
+// Known evaluates the class predicate of a listed known finding: a counterexample is
+// recorded as a witness, the path goes on.
+func (m *Machine) Known(v Value, id string) {
+	var neg *sym.Term
+	switch x := v.(type) {
+	case bool:
+		if x {
+			return
+		}
+		neg = m.C.T
+	case *sym.Term:
+		if x.IsTrue() {
+			return
+		}
+		neg = m.C.Not(x)
+	}
+	if m.knownW[id] != nil {
+		return
+	}
+	mod, r := m.modelNow(neg)
+	if r == smt.Sat {
+		m.knownW[id] = &Violation{AssertID: id, Model: mod, Inputs: m.inputsFromModel(mod), Prefix: DecString(m.decisions)}
+	} else if r == smt.Unknown {
+		m.inconclusive = append(m.inconclusive, fmt.Sprintf("known-finding predicate %s: solver unknown", id))
+	}
 }
 
 // ---------------------------------------------------------------- goroutines
